@@ -6,10 +6,8 @@ open Gossamer Gossamer.C35
 /- lines:
    `<cap>|p k v;g k;…`      sequence on a fresh cache → `<effective cap>|<res>:<list>;…|map=<sorted keys>`
                             (`<list>` = `k=v,k=v` front→back, `-` when empty; res of a put is `_`)
-   `lock LRUCache <Method>` → lock-table entry of the model (`Lock writes`)
-   `methods LRUCache`       → method names of the table
-   `table LRUCache|<table>` → `safe` / `racy <method>`: the monitor rule decided over the table
-                              the harness extracted from the current source
+   `table LRUCache|<table>` → `safe` / `racy <method>`: the monitor rule DECIDED over the table
+                              the harness extracted from the current source (nothing stored)
    `race …`                 → `ok` (the stress run only reports that it survived the race detector) -/
 
 def showList (l : List Elem) : String :=
@@ -46,22 +44,18 @@ def seqCase (capS body : String) : String :=
       let (outs, c) := runSeq c0 ops []
       s!"{c0.capacity}|{";".intercalate outs}|map={showMap c.cache c.lruList}"
 
-def table : List Monitor.Method := (Monitor.ofTriples lockTable).getD []
-
 def step (line : String) : String :=
   match words line with
-  | ["lock", "LRUCache", m] =>
-    match table.find? (·.name == m) with
-    | some e => e.render
-    | none => "no-such-method"
-  | ["methods", "LRUCache"] => ",".intercalate (table.map (·.name))
   | "race" :: _ => "ok"
-  | _ =>
+  | "table" :: _ =>
+    -- the lock table the harness extracted from the CURRENT source is on the line: decide it
     match line.splitOn "|" with
-    | ["table LRUCache", t] =>
-      match Monitor.parseTable t with
+    | [_, t] => match Monitor.parseTable t with
       | some tb => Monitor.verdict tb
       | none => "bad-op"
+    | _ => "bad-op"
+  | _ =>
+    match line.splitOn "|" with
     | [capS, body] => seqCase capS body
     | _ => "bad-op"
 
